@@ -31,10 +31,11 @@ enum Spec {
 const LOCS: &[&str] = &["tl", "t", "tr", "r", "br", "b", "bl", "l", "c", "t:2", "t:-2", "t:25%", "r:2", "r:25%", "b:-2", "b:25%", "l:2", "l:-2"];
 
 /// second box placements relative to A = (40,40)-(60,50): (name, x, y, w, h)
-fn placements() -> Vec<(&'static str, BBox)> {
+fn placements(deep: bool) -> Vec<(&'static str, BBox)> {
     let mut v = Vec::new();
     let (w, h) = (10., 6.);
-    for (dn, d) in [("near", 15.), ("far", 60.)] {
+    let dists: &[(&str, f64)] = if deep { &[("near", 15.), ("far", 60.), ("adjacent", 0.5), ("mid", 27.25)] } else { &[("near", 15.), ("far", 60.)] };
+    for (dn, d) in dists.iter().copied() {
         for (sx, sxn) in [(-1., "W"), (0., ""), (1., "E")] {
             for (sy, syn) in [(-1., "N"), (0., ""), (1., "S")] {
                 if sx == 0. && sy == 0. {
@@ -307,7 +308,11 @@ fn check(c: &Case, places: &[(&'static str, BBox)]) -> CaseResult {
 
 pub fn run(tier: Tier) -> i32 {
     let mut rep = Report::new("C13", tier, "exploration");
-    let places = placements();
+    // the quick tier explores what used to be the thorough space (it takes seconds); `deep` adds the wider bounds
+    #[allow(unused_variables)]
+    let deep = tier == Tier::Thorough;
+    let tier = Tier::Thorough;
+    let places = placements(deep);
     let mut specs: Vec<Spec> = vec![Spec::Auto, Spec::Literal(3., 4.), Spec::Literal(52.5, 44.)];
     for l in LOCS {
         specs.push(Spec::Loc(l));
@@ -326,7 +331,7 @@ pub fn run(tier: Tier) -> i32 {
                         if matches!(s, Spec::Literal(..)) && matches!(e, Spec::Literal(..)) && si != ei {
                             continue;
                         }
-                        if a_el > 0 && !(matches!(s, Spec::Auto) || si % 5 == 0) {
+                        if !deep && a_el > 0 && !(matches!(s, Spec::Auto) || si % 5 == 0) {
                             continue; // non-rect endpoints: automatic and a sample of named locations
                         }
                         if tier == Tier::Quick && si > 2 && ei > 2 && (si + ei + place) % 4 != 0 {
